@@ -253,7 +253,8 @@ class Scheduler:
 
 
 
-def explore_schedules(make_bodies, watched, bound, reset, check, max_execs=20000, watch_module_code=True):
+def explore_schedules(make_bodies, watched, bound, reset, check, max_execs=20000, watch_module_code=True, horizon=4000,
+                      earliest_first=False, stride=1):
     """CHESS-style exploration: run the default schedule, then every alternative choice at every point whose
     preemption count stays within `bound`.  Returns (executions, distinct outcome count, capped?)."""
     n = 0
@@ -266,7 +267,7 @@ def explore_schedules(make_bodies, watched, bound, reset, check, max_execs=20000
             capped = True
             break
         reset()
-        s = Scheduler(watched, prefix, watch_module_code=watch_module_code)
+        s = Scheduler(watched, prefix, watch_module_code=watch_module_code, horizon=horizon)
         res = None
         for attempt in range(3):
             try:
@@ -281,7 +282,7 @@ def explore_schedules(make_bodies, watched, bound, reset, check, max_execs=20000
                 # reported to the caller through check() as a scheduler anomaly (never silently dropped)
                 last_error = str(e)
                 reset()
-                s = Scheduler(watched, prefix, watch_module_code=watch_module_code)
+                s = Scheduler(watched, prefix, watch_module_code=watch_module_code, horizon=horizon)
         else:
             outcomes['<anomaly> ' + last_error[:60]] = outcomes.get('<anomaly> ' + last_error[:60], 0) + 1
             res = None
@@ -291,13 +292,16 @@ def explore_schedules(make_bodies, watched, bound, reset, check, max_execs=20000
         key = check(res, list(s.taken), s)
         outcomes[key] = outcomes.get(key, 0) + 1
         pre = 0
+        new = []
         for i, (nopt, cur_enabled) in enumerate(s.points):
             c = s.taken[i]
-            if i >= len(prefix):
+            if i >= len(prefix) and (stride == 1 or i % stride == 0 or i < 40):
                 for alt in range(1, nopt):
                     cost = pre + (1 if cur_enabled else 0)
                     if cost <= bound:
-                        stack.append(s.taken[:i] + [alt])
+                        new.append(s.taken[:i] + [alt])
             if c != 0 and cur_enabled:
                 pre += 1
+        # the stack is popped from the end: with earliest_first the alternatives that deviate earliest run first
+        stack.extend(reversed(new) if earliest_first else new)
     return n, outcomes, capped
